@@ -415,6 +415,7 @@ func cbF(cb func(error, interface{})) completer {
 
 var (
 	curBeh    string
+	curPanic  int64 // the kind of panic value of BPanicWith
 	events    []any
 	cbPresent bool        // set by cbA / cbF: the method being entered was handed a non-nil completion function
 	stored    []completer // completion functions kept by handlers (BDefer...), oldest first; per case
@@ -440,9 +441,65 @@ func recorder(pos int64) apientry.HandlerCBFunc {
 	}
 }
 
+// ---- panic values (BPanicWith k) ----
+type QuotaError struct{ Limit int }
+
+func (q *QuotaError) Error() string { return fmt.Sprintf("quota %d exceeded", q.Limit) } // nil receiver: panics
+
+type plainError struct{ msg string }
+
+func (p plainError) Error() string { return p.msg }
+
+type badStringer struct{ m map[string]int }
+
+func (b badStringer) String() string { b.m["x"]++; return "never" } // nil map write: panics
+func (b badStringer) Error() string  { return b.String() }
+
+var panicKinds = 10
+
+// panicWith panics with the k-th kind of value
+func panicWith(k int64) {
+	switch k {
+	case 0:
+		panic("a string")
+	case 1:
+		panic(errors.New("an error"))
+	case 2:
+		var m map[string]int
+		m["x"] = 1 // runtime error: assignment to entry in nil map
+	case 3:
+		panic(plainError{"custom error"})
+	case 4:
+		var q *QuotaError
+		var err error = q // typed nil in an error: err != nil, err.Error() panics
+		panic(err)
+	case 5:
+		panic(badStringer{}) // String() and Error() panic
+	case 6:
+		panic(nil)
+	case 7:
+		panic([]func(){func() {}}) // not comparable, not printable as a plain value
+	case 8:
+		var a []int
+		_ = a[3] // runtime error: index out of range
+	case 9:
+		panic(fmt.Errorf("wrapped: %w", &QuotaError{Limit: 3}))
+	default:
+		panic(k)
+	}
+}
+
 func complete(c completer, e bool) {
 	if c != nil {
 		c(e, false)
+	}
+}
+
+func setBeh(a any) {
+	t := hx.AsTerm(a)
+	curBeh = t.Name
+	if t.Name == "BPanicWith" {
+		curPanic = t.Int(0)
 	}
 }
 
@@ -462,6 +519,9 @@ func act(uid int64, isNil bool, get func() int64, comp completer) {
 		complete(comp, true)
 	case "BPanic":
 		panic("zoo panic")
+	case "BPanicWith":
+		panicWith(curPanic)
+		panic("unreachable")
 	case "BOkPanic":
 		complete(comp, false)
 		panic("zoo panic after completion")
@@ -623,7 +683,7 @@ func Exec(ops []hx.T) (norm []hx.T, obs []any, nontrivial bool, seenTags map[str
 			k, ser, route := o.Int(0), o.Str(1), strOf(o.Args[2])
 			data := rawOf(o.Args[3], true)
 			ctx, withCB := ctxOf(o.Args[5]), o.Bool(6)
-			curBeh = hx.AsTerm(o.Args[7]).Name
+			setBeh(o.Args[7])
 			var cb apientry.HandlerCBFunc
 			if withCB {
 				cb = recorder(int64(pos))
@@ -643,7 +703,7 @@ func Exec(ops []hx.T) (norm []hx.T, obs []any, nontrivial bool, seenTags map[str
 				argTerm = hx.C("AVal", at.Int(0), at.Int(1), tok(valueOf(at.Int(0), at.Int(1)))) // token of an identical, untouched value
 			}
 			ctx, withCB := ctxOf(o.Args[3]), o.Bool(4)
-			curBeh = hx.AsTerm(o.Args[5]).Name
+			setBeh(o.Args[5])
 			var cb apientry.HandlerCBFunc
 			if withCB {
 				cb = recorder(int64(pos))
@@ -657,7 +717,7 @@ func Exec(ops []hx.T) (norm []hx.T, obs []any, nontrivial bool, seenTags map[str
 		case "ODispatch":
 			ks, rid, route := o.Ints(0), o.Int(1), strOf(o.Args[2])
 			data := rawOf(o.Args[3], true)
-			curBeh = hx.AsTerm(o.Args[7]).Name
+			setBeh(o.Args[7])
 			if w == nil {
 				w = newWorld()
 			}
@@ -789,6 +849,8 @@ func Run(cfg *hx.Config) error {
 	enumerateSequences(thorough, emit)
 	enumerateRejections(thorough, emit)
 	enumerateOverlap(thorough, emit)
+	enumeratePanics(thorough, emit)
+	enumerateDots(thorough, emit)
 	for i := 0; i < cfg.N; i++ {
 		if i%3 == 2 {
 			ops, tags := genDispatch(cfg)
